@@ -302,6 +302,29 @@ func checkPrevails(c *buildCase, full *dhcpv4.DHCPv4) []clauseFail {
 	return nil
 }
 
+// checkReuse: the caller's modifier slice is the caller's.  The same slice,
+// with spare capacity (as append leaves it), is passed to the builder twice; the
+// second packet must equal the first (seeded change C15-1: PrependModifiers
+// shifting the caller's slice in place made the second call see the defaults as
+// "user" modifiers).
+func checkReuse(c *buildCase, full *dhcpv4.DHCPv4) []clauseFail {
+	if len(c.toks) == 0 {
+		return nil
+	}
+	ms := make([]dhcpv4.Modifier, 0, len(c.toks)+16)
+	ms = append(ms, c.mods()...)
+	first := c.call(ms)
+	second := c.call(ms)
+	var fs []clauseFail
+	if got, want := maskedShow(first), maskedShow(full); got != want {
+		fs = append(fs, clauseFail{"modifiers-slice-reused", "builder(ms...) with spare capacity = " + got + " but with an exact slice = " + want})
+	}
+	if got, want := maskedShow(second), maskedShow(first); got != want {
+		fs = append(fs, clauseFail{"modifiers-slice-reused", "second builder(ms...) with the same slice = " + got + " but the first = " + want})
+	}
+	return fs
+}
+
 func oracleC15(r *Rng, n int, thorough bool, seeds []string) *OracleResult {
 	res := &OracleResult{Tags: map[string]int{}}
 	seen := map[uint64]struct{}{}
@@ -328,6 +351,7 @@ func oracleC15(r *Rng, n int, thorough bool, seeds []string) *OracleResult {
 			full := c.call(c.mods())
 			fs = append(fs, checkModifiersLast(c, full)...)
 			fs = append(fs, checkPrevails(c, full)...)
+			fs = append(fs, checkReuse(c, full)...)
 		}()
 		for _, f := range fs {
 			res.fail(Failure{Oracle: "c15", Input: line, What: f.class + ": " + f.what, Class: f.class})
